@@ -7,17 +7,18 @@ SUITE = "convert"
 LEAN_TARGETS = ["TypedpyModel.Props.C17", "TypedpyModel.Audit.C17"]
 AUDIT = "C17"
 THEOREMS = [
-    "Typedpy.C17.convert_version", "Typedpy.C17.convert_version_max", "Typedpy.C17.convert_version_law",
-    "Typedpy.C17.convert_is_upgrade", "Typedpy.C17.convert_compose", "Typedpy.C17.convert_compose_error",
-    "Typedpy.C17.convert_latest_id", "Typedpy.C17.convert_idempotent", "Typedpy.C17.convert_pure",
-    "Typedpy.C17.convert_empty_mapping", "Typedpy.C17.convert_frame", "Typedpy.C17.convert_deleted_absent",
-    "Typedpy.C17.convert_constant_set",
-    "Typedpy.C17.versioned_deser_equiv", "Typedpy.C17.versioned_deser_result", "Typedpy.C17.new_instance_latest",
-    "Typedpy.C17.version_partial", "Typedpy.C17.compose_partial", "Typedpy.C17.versionless_off_by_one",
-    "Typedpy.C17.version_counterexample_versionless", "Typedpy.C17.version_counterexample_clobber",
-    "Typedpy.C17.compose_counterexample_versionless", "Typedpy.C17.compose_counterexample_clobber",
-    "Typedpy.C17.deser_counterexample_no_attribute", "Typedpy.C17.deser_default_history_partial",
-    "Typedpy.C17.beq_sound", "Typedpy.C17.laws_example",
+    "Typedpy.C17.convert_version", "Typedpy.C17.convert_version_max", "Typedpy.C17.convert_version_keyed",
+    "Typedpy.C17.convert_version_max_keyed", "Typedpy.C17.convert_version_versionless",
+    "Typedpy.C17.convert_version_law", "Typedpy.C17.convert_is_upgrade", "Typedpy.C17.convert_compose",
+    "Typedpy.C17.convert_compose_error", "Typedpy.C17.convert_latest_id", "Typedpy.C17.convert_idempotent",
+    "Typedpy.C17.convert_pure", "Typedpy.C17.convert_empty_mapping", "Typedpy.C17.convert_frame",
+    "Typedpy.C17.convert_deleted_absent", "Typedpy.C17.convert_constant_set",
+    "Typedpy.C17.versioned_deser_equiv", "Typedpy.C17.versioned_deser_result",
+    "Typedpy.C17.new_instance_latest", "Typedpy.C17.version_statement_holds",
+    "Typedpy.C17.compose_statement_holds", "Typedpy.C17.deser_default_history_holds",
+    "Typedpy.C17.fixed_versionless_example", "Typedpy.C17.fixed_clobber_example",
+    "Typedpy.C17.fixed_compose_versionless_example", "Typedpy.C17.fixed_compose_clobber_example",
+    "Typedpy.C17.fixed_deser_no_attribute_example", "Typedpy.C17.beq_sound", "Typedpy.C17.laws_example",
 ]
 RULE = ("histories of 0..5 (thorough 0..8) mappings over top-level keys a..e (+ rarely `version`) with Constant, Deleted, "
         "moves (plain and dotted paths, degenerate paths), nested `._mapper` entries (depth <= 2) over sub-documents and "
@@ -31,7 +32,7 @@ ASSUMPTIONS = [
     "documents are JSON values (None/bool/int/str/list/dict with str keys); no floats",
     "FunctionCall functions are the 6 pure functions of harness/suites/convert.py, implemented identically in Lean (applyFn)",
     "keys of Deleted / move / FunctionCall entries do not end in '._mapper'; values of '._mapper' keys are dicts",
-    "law checks apply to start versions v >= 1 (a document without `version` counts as version 1, as convert_dict treats it); "
+    "law checks apply to every history (also with entries for `version`) and start versions v >= 1 (a document without `version` counts as version 1, as convert_dict treats it); "
     "v <= 0 and non-int versions are only corresponded (Python slice semantics are modelled)",
     "key order of documents is modelled (insertion order) but compared order-insensitively, like Python ==",
 ]
@@ -75,7 +76,9 @@ def judge(case, impl, model):
     ver = 1 if versionless else doc.get("version")
     wf = not any(k in ("version", "version" + S.SUFFIX) for m in case["ms"] for k, _ in m)
     int_version = type(ver) is int
-    region = "versionless-document" if versionless else ("mapping-writes-version" if not wf else None)
+    # until typedpy commit f017e49 version-less documents and histories with an entry for `version` were
+    # known-finding regions with their own keys; since the fix they are judged like every other case
+    region = None
     history = _short(case["ms"], 400)
 
     # ---- inputs intact (applies to every case, whatever the start version)
